@@ -90,9 +90,9 @@ def run(c):
         return run_sim(c)
     m, p = pvals_of(c)
     dt = float if c["dtype"] == "float" else np.int64
-    d = np.array([[float(v) for v in r] for r in m]).astype(dt)
+    d = interned(np.array([[float(v) for v in r] for r in m]).astype(dt))
     d0 = d.copy()
-    pv = np.array([float(x) for x in p])
+    pv = interned(np.array([float(x) for x in p]))
     pv0 = pv.copy()
     r = guarded(lambda: float(NPC.npc(pv, d, make_comb(c["comb"]), plus1=c["plus1"])))
     return {"r": list(r), "unmodified": bool((d == d0).all() and (pv == pv0).all())}
